@@ -419,6 +419,8 @@ class DownloadNode:
                     level=log.OPERATIONAL, parent=self._lp,
                     umid="j60Ojg")
             when = now()
+            # whether the segment was decoded or not, its fetcher is done
+            self._active_segment = None
             if isinstance(result, Failure):
                 # this catches failures in decode or ciphertext hash
                 for (d,c,seg_ev) in self._extract_requests(segnum):
@@ -426,7 +428,6 @@ class DownloadNode:
                     eventually(self._deliver, d, c, result)
             else:
                 (offset, segment, decodetime) = result
-                self._active_segment = None
                 for (d,c,seg_ev) in self._extract_requests(segnum):
                     # when we have two requests for the same segment, the
                     # second one will not be "activated" before the data is
